@@ -189,6 +189,8 @@ theorem gen_Binomial_Coefficient_eq (n k : Int) : gen_Binomial_Coefficient n k =
   unfold gen_Binomial_Coefficient binomialGuard; gen_eq
 theorem gen_GammaLn_eq (x : Rat) : gen_GammaLn x = (gammaLnGuard x).stops := by
   unfold gen_GammaLn gammaLnGuard; gen_eq
+theorem gen_Gamma_eq (x : Rat) : gen_Gamma x = (gammaLnGuard x).stops := by
+  unfold gen_Gamma gammaLnGuard; gen_eq
 theorem gen_GammaQ_eq (x a : Rat) : gen_GammaQ x a = (gammaQGuard x a).stops := by
   unfold gen_GammaQ gammaQGuard; gen_eq
 theorem gen_Inv_GammaP_eq (a : Rat) : gen_Inv_GammaP a = (invGammaPGuard a).stops := by
